@@ -116,8 +116,16 @@ def apply (r : Recv) (node : String) : Body → Recv
     { r with subs := r.subs.filter (· != k) }
   | .msg m =>
     let r1 := { r with pubs := r.pubs ++ [m] }
-    -- `if pubMsg.Retained { retainedStore.AddOrReplace(pubMsg) }` — also for an empty payload (F35)
-    if m.retained then { r1 with retained := (r1.retained.filter (·.1 != m.topic)) ++ [(m.topic, m)] } else r1
+    -- since 5eb0806: `if pubMsg.Retained { if len(Payload)==0 { Remove(topic) } else { AddOrReplace(pubMsg) } }`
+    if m.retained then
+      if m.payload == 0 then { r1 with retained := r1.retained.filter (·.1 != m.topic) }
+      else { r1 with retained := (r1.retained.filter (·.1 != m.topic)) ++ [(m.topic, m)] }
+    else r1
+
+/-- the retained-store update of `eventStreamHandler` BEFORE 5eb0806: `AddOrReplace` for every retained message, also
+    for an empty payload (F35) -/
+def retainedAsIs (r : Recv) (m : Msg) : List (String × Msg) :=
+  if m.retained then (r.retained.filter (·.1 != m.topic)) ++ [(m.topic, m)] else r.retained
 
 /-- one iteration of the receive loop of `EventStream` for an event of `node` whose session exists:
     `eventStreamHandler`, `stream.Send(ack)` (succeeds iff `ackOk`), then `sess.nextEventID = ack.EventId+1`.
